@@ -119,9 +119,13 @@ def oracle_case(lines, outs):
     bad = []
     orig = []
     nv = 1
+    prev_trail = []
+    prev_decs = []      # the decisions standing BEFORE the call (check() may backjump below them while failing)
+    lemmas = []         # conflicts reported by a theory from outside propagation (`bj`)
     for i, (ln, o) in enumerate(zip(lines, outs)):
         t = ln.split()
         if t[0] == "case":
+            prev_trail = []
             continue
         if o == "exception:bad-op":
             continue            # the generator referred to a variable that does not exist (rejected by both sides)
@@ -135,6 +139,11 @@ def oracle_case(lines, outs):
         if t[0] == "v":
             nv += 1
             continue
+        if t[0] == "bj" and res in ("T", "F"):
+            # a theory reported the k most recent trail literals as jointly impossible: that clause counts as added
+            # (it is analysed, not stored: the network is not obliged to satisfy it afterwards - the theory would object again)
+            k = int(t[1])
+            lemmas.append([(v, not b) for (v, b) in prev_trail[-k:]])
         if t[0] == "c" and res in ("T", "F"):
             orig.append([S.parse_lit(x) for x in t[1:]])
         if t[0] in ("eq", "conj", "disj", "amo", "exo"):
@@ -142,6 +151,7 @@ def oracle_case(lines, outs):
             pass
         vals = S.parse_vals(parts[1]) if len(parts) > 1 else {}
         dump = {p.split(":", 1)[0]: p.split(":", 1)[1] for p in parts[2:] if ":" in p}
+        prev_trail = [S.parse_lit(x.split("@")[0]) for x in dump.get("trail", "").split()]
         cls_now = S.parse_clauses(dump.get("cls", ""))
         if t[0] in ("eq", "conj", "disj", "amo", "exo"):
             for c in cls_now:
@@ -156,36 +166,38 @@ def oracle_case(lines, outs):
             orig.append(learnt[0])
             learnt = learnt[1:]
         for c in learnt:
-            if not S.entails(orig, c):
+            if not S.entails(orig + lemmas, c):
                 bad.append((i, f"{ln}: recorded clause {[S.show_lit(x) for x in c]} is not entailed by the added clauses"))
                 return bad
         decs = [S.parse_lit(x) for x in dump.get("dec", "").split()]
         for v, b in vals.items():
             if v == 0:
                 continue
-            if not S.entails(orig + [[d] for d in decs], [(v, b)]):
+            if not S.entails(orig + lemmas + [[d] for d in decs], [(v, b)]):
                 bad.append((i, f"{ln}: reported value {S.show_lit((v, b))} is not a consequence of the clauses and the decisions {[S.show_lit(d) for d in decs]}"))
                 return bad
         if res == "F":
-            if t[0] in ("c", "prop", "assume", "simp") or (t[0] == "next" and learnt is not None and len(head) > 1):
-                if S.solve(orig) is not None and t[0] != "assume":
+            if t[0] in ("c", "prop", "assume", "simp", "bj") or (t[0] == "next" and learnt is not None and len(head) > 1):
+                if S.solve(orig + lemmas) is not None and t[0] != "assume":
                     bad.append((i, f"{ln}: answered false but the added clauses are satisfiable"))
                     return bad
-                if t[0] == "assume" and S.solve(orig) is not None:
+                if t[0] == "assume" and S.solve(orig + lemmas) is not None:
                     bad.append((i, f"{ln}: answered false (inconsistent network) but the added clauses are satisfiable"))
                     return bad
                 return bad
             if t[0] == "check":
                 assum = [S.parse_lit(x) for x in t[1:]]
-                if S.solve(orig + [[d] for d in decs], assum) is not None:
+                if S.solve(orig + lemmas + [[d] for d in prev_decs], assum) is not None:
                     bad.append((i, f"{ln}: check answered false but clauses + decisions + assumptions are satisfiable"))
                     return bad
-        if res == "T" and dump.get("q", "0").strip() == "0" and "U" not in parts[1] and t[0] in ("prop", "assume", "next"):
+        prev_decs_next = decs
+        if res == "T" and dump.get("q", "0").strip() == "0" and "U" not in parts[1] and t[0] in ("prop", "assume", "next", "bj"):
             asg = dict(vals)
             for c in orig:
                 if not any(asg.get(l[0]) == l[1] for l in c):
                     bad.append((i, f"{ln}: total assignment after successful propagation falsifies added clause {[S.show_lit(x) for x in c]}"))
                     return bad
+        prev_decs = prev_decs_next
     return bad
 
 
@@ -286,6 +298,44 @@ def run(tier, seed, replay=None):
             b = oracle_case(cl, ci_)
             if b:
                 obad[ci] = b
+    # conflicts reported from outside propagation (theory::backtrack_analyze_and_backjump, the executor's entry point):
+    # the same propositional histories with `bj k` calls, run on the network harness
+    bj = {"cases": 0, "bj_calls": 0}
+    try:
+        from . import c10
+        exe_n = c10.build(tier)
+        blines = []
+        for c in range(400 if tier == "quick" else 8000):
+            g = [gen_random, gen_php, gen_parity][c % 3]
+            L = g(rng, 100000 + c)
+            out = []
+            for ln in L:
+                out.append(ln)
+                if ln.split()[0] in ("assume", "prop") and rng.random() < 0.25:
+                    out.append(f"bj {rng.randint(1, 4)}")
+            blines += [ln for ln in out if ln.split()[0] != "simp"]
+        bl, bi, bm, bab, bmab = model_first("net", exe_n, blines, env)
+        bcases = c13.split_cases(bl, bi, bm)
+        bj["cases"] = len(bcases)
+        for cl, co, cm in bcases:
+            bj["bj_calls"] += sum(1 for l, o in zip(cl, co) if l.startswith("bj ") and o and o[:1] in "TF")
+            k = next((k for k, (a, b) in enumerate(zip(co, cm)) if a != b), None)
+            ob = oracle_case(cl, [None if o is None else o for o in co])
+            if ob:
+                i, msg = ob[0]
+                rep.violation("bj: " + msg[:400], {"kind": "oracle", "ops": cl[:i + 1], "impl": [co[i]], "model": [cm[i]]}, tags={"sat:bj:oracle"})
+                break
+            if k is not None:
+                rep.violation(f"bj: model and implementation differ at `{cl[k]}` (impl {str(co[k])[:150]}, model {str(cm[k])[:150]})",
+                              {"kind": "correspondence", "theorem_or_correspondence": "correspondence net (bj histories)", "ops": cl[:k + 1], "impl": [co[k]], "model": [cm[k]]},
+                              tags={"sat:bj:differs"}, no_input=True)
+                break
+        if bab:
+            i, why, err = bab[0]
+            rep.violation(f"bj history: the library aborted ({why}) at `{bl[i]}`", {"kind": "oracle", "ops": bl[max(0, i - 30):i + 1], "stderr": err[-800:]}, tags={"sat:bj:abort"})
+    except vlib.BuildFailure as e:
+        rep.violation("harness does not build against the current tree", {"kind": "build", "theorem_or_correspondence": "harness/net.cpp vs /repo/smt", "log": str(e)}, no_input=True)
+    rep.cov["backjump_from_outside"] = bj
     sites = {}
     for ci, first in mism:
         cl, ci_, cm = cases[ci]
